@@ -5,7 +5,7 @@ from ..index import AnalysisError, u, call_name, call_attr, walk_local, base_nam
 from .. import flow
 from ..fold import try_fold
 from ..tables import registrations, class_literal, self_attr_store
-from ..util import stmts_with_env, calls_with_env, kwarg, assignments_to
+from ..util import stmts_with_env, calls_with_env, kwarg, assignments_to, single_def
 
 FF = 'vermouth/ffinput.py'
 ITP = 'vermouth/gmx/itp_read.py'
@@ -15,7 +15,8 @@ PU = 'vermouth/parser_utils.py'
 CONTEXT_OF = {'moleculetype': {'block'}, 'link': {'link', 'molmeta'}, 'modification': {'modification'}}
 
 
-from .common import method, raise_conditions, guarded_by_raise, has_atom, raise_condition_is, atom_text
+from .common import method, raise_conditions, guarded_by_raise, has_atom, raise_condition_is, atom_text, unconditional_in
+from . import shared
 
 
 def run(ck):
@@ -296,6 +297,39 @@ def run(ck):
     ck.ob('PROV-itp-index-table', itp.loc(itpd), ok,
           'the table that turns a 1-based atom index of an .itp interaction into an atom is always rebuilt from the atoms of the current block '
           '({} assignment(s), {} in-place mutation(s))'.format(len(can), len(muts)), key='PROV-itp-index-table')
+    # per-line metadata overrides the section-wide #meta
+    metas = [s_ for s_ in walk_local(bp) if isinstance(s_, ast.Assign) and u(s_.targets[0]) == 'meta' and shared.merge_winner(s_.value) is not None]
+    ok = len(metas) == 1 and shared.merge_winner(metas[0].value) == ('meta', 'apply_to_all_interactions')
+    aai = single_def(bp, 'apply_to_all_interactions')
+    ok = ok and aai is not None and u(aai) == 'context._apply_to_all_interactions[section]'
+    ck.ob('PREC-specific-wins', ff.loc(bp), ok, 'interaction metadata: what the line itself declares overrides the #meta of the section (`{}`)'.format(u(metas[0].value) if metas else '?'),
+          key='PREC-specific-wins|_base_parser-meta')
+    pm = ff.func('_parse_meta')
+    ck.ob('PREC-specific-wins', ff.loc(pm), 'context._apply_to_all_interactions[section].update(attributes)' in u(pm), '#meta lines accumulate per section of the current context',
+          key='PREC-specific-wins|_parse_meta')
+    # the generic header parser (used by the mapping reader): every closed section is reported to finalize_section
+    bph = ck.need(method(slp, 'parse_header'), 'SectionLineParser.parse_header vanished')
+    ck.analysed(pu, bph)
+    sets = [s_ for s_ in walk_local(bph) if isinstance(s_, ast.Assign) and u(s_.targets[0]) == 'self.section']
+    wl = [w for w in bph.body if isinstance(w, ast.While)]
+    ok = len(sets) == 1 and u(sets[0].value) == 'section' and any(sets[0] is s_ for s_ in bph.body) and len(wl) == 1 and bph.body.index(wl[0]) < bph.body.index(sets[0])
+    if ok:
+        w = wl[0]
+        f = flow.to_formula(w.test)
+        names = {}
+        for k in flow.atoms_of(f):
+            if k[0] == 'In' and k[1] == 'tuple(section)' and 'METH_DICT' in k[2]:
+                names[k] = 'KNOWN'
+            elif k[0] == 'Gt' and set(k[1:]) == {'len(section)', '1'}:
+                names[k] = 'NESTED'
+        ok = flow.equivalent(flow.rename(f, names), flow.parse_formula('not KNOWN and NESTED'))[0] and len(w.body) == 1 and u(w.body[0]) == 'ended.append(section.pop(-2))'
+        fin = calls_with_env(bph, lambda c: call_attr(c) == 'finalize_section')
+        ok = ok and len(fin) == 1 and [u(a) for a in fin[0][0].args] == ['prev_section', 'ended'] and \
+            flow.equivalent(fin[0][2], ('atom', ('truth', 'prev_section')))[0] and u(single_def(bph, 'prev_section')) == 'self.section'
+        sec = single_def(bph, 'section')
+        ok = ok and sec is not None and u(sec) == "self.section + [line.strip('[ ]').casefold()]"
+    ck.ob('MPT-finalize', pu.loc(bph), ok, 'the generic header parser pops enclosing sections until the header is known, reports all popped sections, and has no shortcut '
+          '(the mapping reader emits a mapping exactly when a block/modification section is among the popped ones)', key='MPT-finalize|generic-header')
     # the "atoms" given to the arity test are the ones collected with that arity
     ga = calls_with_env(bp, lambda c: call_name(c) == '_get_atoms')
     ck.ob('MPT-reject', ff.loc(bp), len(ga) == 1 and 'natoms' in u(ga[0][0]), '_base_parser collects atoms with the section arity', key='MPT-reject|get-atoms')
@@ -376,4 +410,5 @@ def run(ck):
                           'except {} in {} re-raises{}'.format(typ, qual, '' if reraises else ' -- named exception: ' + str(exc)),
                           key='WMC-swallow|{}|{}|{}'.format(module.rel, qual, typ))
     ck.expect_count('WMC except handlers in the parser modules', nh, 5)
+    shared.truthy_zero(ck, [FF, ITP, PU, MAP, 'vermouth/map_input.py'])
     ck.assume('token-level grammar, macro substitution results and .map weight arithmetic are not decided')
